@@ -20,7 +20,7 @@ theorem wrap64_id (x : Int) (h1 : -I63 ≤ x) (h2 : x < I63) : wrap64 x = x := b
   split <;> omega
 
 section
-variable (now : Int) (pat : Bytes) (typ : Nat) (keyLen : Int)
+variable (now : Int) (pat : Bytes) (typ : Nat)
 
 /-- the batch of names kept from a list of view entries -/
 def kept (es : List VEnt) : List Bytes := (es.filter (keep now pat typ)).map (·.1)
@@ -31,8 +31,8 @@ theorem kept_append (a b : List VEnt) : kept now pat typ (a ++ b) = kept now pat
 /-- skipping phase: `j < cursor` entries are passed over -/
 theorem goPure_skip : ∀ (j : Nat) (ents : List VEnt) (c iter count : Int) (acc : List Bytes),
     j ≤ ents.length → (j : Int) < c → c < I63 →
-    goPure now pat typ keyLen ents c iter count acc
-      = goPure now pat typ keyLen (ents.drop j) (c - j) (iter + j) count acc := by
+    goPure now pat typ ents c iter count acc
+      = goPure now pat typ (ents.drop j) (c - j) (iter + j) count acc := by
   intro j
   induction j with
   | zero => intro ents c iter count acc _ _ _; simp
@@ -50,23 +50,23 @@ theorem goPure_skip : ∀ (j : Nat) (ents : List VEnt) (c iter count : Int) (acc
       have h2 : iter + 1 + (j : Int) = iter + ((j + 1 : Nat) : Int) := by omega
       rw [h1, h2]
 
-/-- visiting phase with a budget of `k ≥ 0` entries -/
+/-- visiting phase with a budget of `k ≥ 0` entries: cursor 0 when the walk ran off the end,
+    otherwise the 1-based position of the first entry not visited -/
 theorem goPure_visit_lim : ∀ (ents : List VEnt) (cursor iter : Int) (k : Nat) (acc : List Bytes),
-    cursor ≤ 1 → -I63 < cursor - ents.length → iter + ents.length ≤ keyLen → (k : Int) < I63 →
-    goPure now pat typ keyLen ents cursor iter (k : Int) acc
-      = ((if ents.length ≤ k then iter + (ents.length : Int) else iter + (k : Int) + 1),
+    cursor ≤ 1 → -I63 < cursor - ents.length → (k : Int) < I63 →
+    goPure now pat typ ents cursor iter (k : Int) acc
+      = ((if ents.length ≤ k then 0 else iter + (k : Int) + 1),
          acc.reverse ++ kept now pat typ (ents.take k)) := by
   intro ents
   induction ents with
-  | nil => intro cursor iter k acc _ _ _ _; simp [goPure, kept]
+  | nil => intro cursor iter k acc _ _ _; simp [goPure, kept]
   | cons e rest ih =>
-    intro cursor iter k acc h1 h2 h3 h4
-    simp only [List.length_cons, Int.natCast_add, Int.natCast_one] at h2 h3
+    intro cursor iter k acc h1 h2 h4
+    simp only [List.length_cons, Int.natCast_add, Int.natCast_one] at h2
     rw [goPure]
     have hw : wrap64 (cursor - 1) = cursor - 1 := wrap64_id _ (by omega) (by unfold I63 at *; omega)
     have hn1 : ¬ (cursor - 1 > 0) := by omega
-    have hn2 : ¬ (iter + 1 > keyLen) := by omega
-    simp only [hw, hn1, hn2, if_false]
+    simp only [hw, hn1, if_false]
     cases k with
     | zero => simp [kept]
     | succ k' =>
@@ -77,59 +77,56 @@ theorem goPure_visit_lim : ∀ (ents : List VEnt) (cursor iter : Int) (k : Nat) 
       have hlen : (rest.length + 1 ≤ k' + 1) = (rest.length ≤ k') := by simp
       by_cases hk : keep now pat typ e = true
       · simp only [hk, if_true]
-        rw [ih (cursor - 1) (iter + 1) k' (e.1 :: acc) (by omega) (by omega) (by omega) (by omega)]
+        rw [ih (cursor - 1) (iter + 1) k' (e.1 :: acc) (by omega) (by omega) (by omega)]
         simp only [List.length_cons, hlen, List.take_succ_cons, kept, List.filter_cons, hk, if_true,
           List.map_cons, List.reverse_cons, List.append_assoc, List.singleton_append]
         congr 1
-        split <;> (push_cast; omega)
+        split <;> first | rfl | (push_cast; omega)
       · simp only [hk, if_false, Bool.false_eq_true]
-        rw [ih (cursor - 1) (iter + 1) k' acc (by omega) (by omega) (by omega) (by omega)]
+        rw [ih (cursor - 1) (iter + 1) k' acc (by omega) (by omega) (by omega)]
         simp only [List.length_cons, hlen, List.take_succ_cons, kept, List.filter_cons, hk,
           Bool.false_eq_true, if_false]
         congr 1
-        split <;> (push_cast; omega)
+        split <;> first | rfl | (push_cast; omega)
 
 /-- visiting phase with a negative count: unlimited (even across the wrap at int64 min) -/
 theorem goPure_visit_unl : ∀ (ents : List VEnt) (cursor iter count : Int) (acc : List Bytes),
-    cursor ≤ 1 → -I63 < cursor - ents.length → iter + ents.length ≤ keyLen → (ents.length : Int) < I63 →
+    cursor ≤ 1 → -I63 < cursor - ents.length → (ents.length : Int) < I63 →
     -I63 ≤ count → count < 0 →
-    goPure now pat typ keyLen ents cursor iter count acc
-      = (iter + (ents.length : Int), acc.reverse ++ kept now pat typ ents) := by
+    goPure now pat typ ents cursor iter count acc
+      = (0, acc.reverse ++ kept now pat typ ents) := by
   intro ents
   induction ents with
-  | nil => intro cursor iter count acc _ _ _ _ _ _; simp [goPure, kept]
+  | nil => intro cursor iter count acc _ _ _ _ _; simp [goPure, kept]
   | cons e rest ih =>
-    intro cursor iter count acc h1 h2 h3 h4 h5 h6
-    simp only [List.length_cons, Int.natCast_add, Int.natCast_one] at h2 h3 h4
+    intro cursor iter count acc h1 h2 h4 h5 h6
+    simp only [List.length_cons, Int.natCast_add, Int.natCast_one] at h2 h4
     rw [goPure]
     have hw : wrap64 (cursor - 1) = cursor - 1 := wrap64_id _ (by omega) (by unfold I63 at *; omega)
     have hn1 : ¬ (cursor - 1 > 0) := by omega
-    have hn2 : ¬ (iter + 1 > keyLen) := by omega
     have hn3 : ¬ (count = 0) := by omega
-    simp only [hw, hn1, hn2, hn3, if_false]
+    simp only [hw, hn1, hn3, if_false]
     -- the recursive call on `rest`, whatever the accumulator
-    have hrec : ∀ acc', goPure now pat typ keyLen rest (cursor - 1) (iter + 1) (wrap64 (count - 1)) acc'
-        = (iter + 1 + (rest.length : Int), acc'.reverse ++ kept now pat typ rest) := by
+    have hrec : ∀ acc', goPure now pat typ rest (cursor - 1) (iter + 1) (wrap64 (count - 1)) acc'
+        = (0, acc'.reverse ++ kept now pat typ rest) := by
       intro acc'
       by_cases hmin : -I63 ≤ count - 1
       · rw [wrap64_id _ hmin (by unfold I63 at *; omega)]
-        exact ih (cursor - 1) (iter + 1) (count - 1) acc' (by omega) (by omega) (by omega) (by omega) hmin (by omega)
+        exact ih (cursor - 1) (iter + 1) (count - 1) acc' (by omega) (by omega) (by omega) hmin (by omega)
       · -- count = int64 min: the decrement wraps to int64 max, still more than the index holds
         have hc : count = -I63 := by omega
         have hw2 : wrap64 (count - 1) = ((9223372036854775807 : Nat) : Int) := by
           subst hc; unfold wrap64 int64Max I63; simp
-        rw [hw2, goPure_visit_lim now pat typ keyLen rest (cursor - 1) (iter + 1) 9223372036854775807 acc' (by omega) (by omega) (by omega)
+        rw [hw2, goPure_visit_lim now pat typ rest (cursor - 1) (iter + 1) 9223372036854775807 acc' (by omega) (by omega)
           (by unfold I63; omega)]
         have hle : rest.length ≤ 9223372036854775807 := by unfold I63 at h4; omega
         simp only [hle, if_true, List.take_of_length_le hle]
     by_cases hk : keep now pat typ e = true
     · simp only [hk, if_true, hrec]
-      simp only [List.length_cons, kept, List.filter_cons, hk, if_true, List.map_cons, List.reverse_cons,
+      simp only [kept, List.filter_cons, hk, if_true, List.map_cons, List.reverse_cons,
         List.append_assoc, List.singleton_append]
-      congr 1; push_cast; omega
     · simp only [hk, if_false, Bool.false_eq_true, hrec]
-      simp only [List.length_cons, kept, List.filter_cons, hk, Bool.false_eq_true, if_false]
-      congr 1; push_cast; omega
+      simp only [kept, List.filter_cons, hk, Bool.false_eq_true, if_false]
 
 end
 
@@ -141,7 +138,8 @@ variable (v : List VEnt) (now : Int) (pat : Bytes) (typ : Nat)
 /-- 0-based position at which a call with cursor `c` starts visiting -/
 def startOf (c : Int) : Nat := (c - 1).toNat
 
-theorem scanPure_end (c count : Int) (hc : (v.length : Int) ≤ c) :
+/-- a cursor beyond the last position is answered with (0, nothing) -/
+theorem scanPure_end (c count : Int) (hc : (v.length : Int) < c) :
     scanPure v now c pat count typ = (0, []) := by
   unfold scanPure
   simp only
@@ -149,48 +147,50 @@ theorem scanPure_end (c count : Int) (hc : (v.length : Int) ≤ c) :
   · rfl
   · first
     | rfl
-    | (split
-       · rfl
-       · omega)
+    | rw [if_pos hc]
+
+theorem scanPure_empty (c count : Int) (h : v.length = 0) : scanPure v now c pat count typ = (0, []) := by
+  unfold scanPure
+  simp only
+  rw [if_pos (by omega)]
 
 /-- reduce a call to its visiting phase -/
-theorem scanPure_visit (hn : (v.length : Int) < I63) (c count : Int) (h0 : 0 ≤ c) (hc : c < v.length) :
+theorem scanPure_visit (hn : (v.length : Int) < I63) (c count : Int) (h0 : 0 ≤ c) (hc : c ≤ v.length)
+    (hpos : 0 < v.length) :
     scanPure v now c pat count typ =
-      goPure now pat typ (v.length : Int) (v.drop (startOf c)) (c - (startOf c : Nat)) (0 + (startOf c : Nat)) count [] := by
+      goPure now pat typ (v.drop (startOf c)) (c - (startOf c : Nat)) (0 + (startOf c : Nat)) count [] := by
   unfold scanPure
   simp only
   rw [if_neg (by omega), if_neg (by omega)]
   by_cases hc0 : c = 0
   · subst hc0; simp [startOf]
-  · exact goPure_skip now pat typ _ (startOf c) v c 0 count [] (by unfold startOf; omega) (by unfold startOf; omega) (by omega)
+  · exact goPure_skip now pat typ (startOf c) v c 0 count [] (by unfold startOf; omega) (by unfold startOf; omega) (by omega)
 
-/-- a call with 0 ≤ COUNT = k: visits `k` records from the start position; replies the 1-based
-    position of the first unvisited record, or the index length if it ran off the end -/
-theorem scanPure_lim (hn : (v.length : Int) < I63) (c : Int) (k : Nat) (hk : (k : Int) < I63) (h0 : 0 ≤ c) (hc : c < v.length) :
+/-- a call with 0 ≤ COUNT = k: visits `k` records from the start position; replies 0 if that
+    reached the end of the index, else the 1-based position of the first unvisited record -/
+theorem scanPure_lim (hn : (v.length : Int) < I63) (c : Int) (k : Nat) (hk : (k : Int) < I63) (h0 : 0 ≤ c)
+    (hc : c ≤ v.length) (hpos : 0 < v.length) :
     scanPure v now c pat (k : Int) typ =
-      ((if v.length - startOf c ≤ k then (v.length : Int) else ((startOf c + k + 1 : Nat) : Int)),
+      ((if v.length - startOf c ≤ k then 0 else ((startOf c + k + 1 : Nat) : Int)),
        kept now pat typ ((v.drop (startOf c)).take k)) := by
-  rw [scanPure_visit v now pat typ hn c k h0 hc]
+  rw [scanPure_visit v now pat typ hn c k h0 hc hpos]
   have hs : startOf c ≤ v.length := by unfold startOf; omega
-  rw [goPure_visit_lim now pat typ _ _ _ _ k [] (by unfold startOf; omega)
-    (by simp only [List.length_drop]; unfold startOf; unfold I63 at *; omega)
-    (by simp only [List.length_drop]; omega) hk]
+  rw [goPure_visit_lim now pat typ _ _ _ k [] (by unfold startOf; omega)
+    (by simp only [List.length_drop]; unfold startOf; unfold I63 at *; omega) hk]
   simp only [List.length_drop, List.reverse_nil, List.nil_append]
   congr 1
   split <;> omega
 
-/-- a call with a negative COUNT visits everything from the start position -/
+/-- a call with a negative COUNT visits everything from the start position and replies 0 -/
 theorem scanPure_unl (hn : (v.length : Int) < I63) (c count : Int) (hk : -I63 ≤ count) (hneg : count < 0)
-    (h0 : 0 ≤ c) (hc : c < v.length) :
-    scanPure v now c pat count typ = ((v.length : Int), kept now pat typ (v.drop (startOf c))) := by
-  rw [scanPure_visit v now pat typ hn c count h0 hc]
+    (h0 : 0 ≤ c) (hc : c ≤ v.length) (hpos : 0 < v.length) :
+    scanPure v now c pat count typ = (0, kept now pat typ (v.drop (startOf c))) := by
+  rw [scanPure_visit v now pat typ hn c count h0 hc hpos]
   have hs : startOf c ≤ v.length := by unfold startOf; omega
-  rw [goPure_visit_unl now pat typ _ _ _ _ count [] (by unfold startOf; omega)
+  rw [goPure_visit_unl now pat typ _ _ _ count [] (by unfold startOf; omega)
     (by simp only [List.length_drop]; unfold startOf; unfold I63 at *; omega)
-    (by simp only [List.length_drop]; omega) (by simp only [List.length_drop]; omega) hk hneg]
-  simp only [List.length_drop, List.reverse_nil, List.nil_append]
-  congr 1
-  omega
+    (by simp only [List.length_drop]; omega) hk hneg]
+  simp only [List.reverse_nil, List.nil_append]
 
 end
 
@@ -203,119 +203,55 @@ variable (v : List VEnt) (now : Int) (pat : Bytes) (typ : Nat)
 def pstep (count : Int) : Unit → Int → Unit × Int × List Bytes :=
   fun _ c => ((), scanPure v now c pat count typ)
 
-/-- the last record of the index is never visited: the cursor that would lead to it equals the
-    index length, which the next call takes for "past the end" -/
-def Missed (n k p : Nat) : Prop := (n - 1 - p) % k = 0 ∧ n - 1 - p > 0
-
-instance (n k p : Nat) : Decidable (Missed n k p) := by unfold Missed; infer_instance
-
-/-- the final call: a cursor equal to the index length is answered with (0, nothing) -/
-theorem iter_final (count : Int) (f : Nat) :
-    iterateFrom (pstep v now pat typ count) (f + 1) () (v.length : Int) = ([[]], true) := by
-  rw [iterateFrom_succ]
-  simp only [pstep, scanPure_end v now pat typ (v.length : Int) count (by omega)]
-  simp
-
+/-- from start position `p < n` with COUNT k > 0: ⌈(n − p) / k⌉ calls report everything from `p` on -/
 theorem iter_scan (hn : (v.length : Int) < I63) (k : Nat) (hk0 : 0 < k) (hk : (k : Int) < I63) :
-    ∀ (fuel p : Nat) (c : Int), (c = 0 ∧ p = 0 ∨ c = ((p + 1 : Nat) : Int)) → c < v.length →
-      (v.length - p + k - 1) / k + (if Missed v.length k p then 0 else 1) ≤ fuel →
+    ∀ (fuel p : Nat) (c : Int), (c = 0 ∧ p = 0 ∨ c = ((p + 1 : Nat) : Int)) → p < v.length →
+      (v.length - p + k - 1) / k ≤ fuel →
       (iterateFrom (pstep v now pat typ k) fuel () c).2 = true ∧
-      (iterateFrom (pstep v now pat typ k) fuel () c).1.flatten
-        = kept now pat typ ((v.drop p).take (if Missed v.length k p then v.length - 1 - p else v.length - p)) ∧
-      (iterateFrom (pstep v now pat typ k) fuel () c).1.length
-        = (v.length - p + k - 1) / k + (if Missed v.length k p then 0 else 1) := by
+      (iterateFrom (pstep v now pat typ k) fuel () c).1.flatten = kept now pat typ (v.drop p) ∧
+      (iterateFrom (pstep v now pat typ k) fuel () c).1.length = (v.length - p + k - 1) / k := by
   intro fuel
   induction fuel with
   | zero =>
-    intro p c hpc hc hf
+    intro p c hpc hp hf
     exfalso
-    have hp : p < v.length := by omega
     have : 1 ≤ (v.length - p + k - 1) / k := by
       apply (Nat.le_div_iff_mul_le hk0).2; omega
     omega
   | succ f ih =>
-    intro p c hpc hc hf
-    have hp : p < v.length := by omega
+    intro p c hpc hp hf
     have hstart : startOf c = p := by unfold startOf; omega
     have hstep : (pstep v now pat typ (k : Int) () c) =
-        ((), (if v.length - p ≤ k then (v.length : Int) else ((p + k + 1 : Nat) : Int)),
+        ((), (if v.length - p ≤ k then 0 else ((p + k + 1 : Nat) : Int)),
           kept now pat typ ((v.drop p).take k)) := by
       simp only [pstep]
-      rw [scanPure_lim v now pat typ hn c k hk (by omega) hc, hstart]
-    rw [iterateFrom_succ, hstep]
-    simp only
+      rw [scanPure_lim v now pat typ hn c k hk (by omega) (by omega) (by omega), hstart]
     generalize hN : v.length = n at *
     by_cases hA : n - p ≤ k
-    · -- the call runs off the end; one more call answers 0
-      have hnm : ¬ Missed n k p := by
-        unfold Missed; intro ⟨h1, h2⟩
-        rw [Nat.mod_eq_of_lt (by omega)] at h1; omega
+    · -- the call reaches the end of the index and answers 0
       have hdiv : (n - p + k - 1) / k = 1 := by
         apply Nat.div_eq_of_lt_le <;> simp <;> omega
-      simp only [hnm, if_false, hdiv] at hf ⊢
-      obtain ⟨g, rfl⟩ : ∃ g, f = g + 1 := ⟨f - 1, by omega⟩
-      have hne : ¬ ((n : Int) = 0) := by omega
-      simp only [hA, if_true, hne, if_false]
-      rw [← hN, iter_final v now pat typ k g]
+      rw [if_pos hA] at hstep
+      rw [iterateFrom_last _ f () c () _ hstep, hdiv]
       simp only [List.flatten_cons, List.flatten_nil, List.append_nil, List.length_cons, List.length_nil, true_and]
-      rw [hN, List.take_of_length_le (by simp; omega), List.take_of_length_le (by simp; omega)]
+      rw [List.take_of_length_le (by simp; omega)]
       simp
-    · by_cases hB : p + k + 1 = n
-      · -- the first unvisited record is the last one: the returned cursor is the index length
-        have hm : Missed n k p := by
-          unfold Missed
-          have : n - 1 - p = k := by omega
-          rw [this]; exact ⟨Nat.mod_self k, hk0⟩
-        have hdiv : (n - p + k - 1) / k = 2 := by
-          have : n - p + k - 1 = 2 * k := by omega
-          rw [this, Nat.mul_div_cancel _ hk0]
-        simp only [hm, if_true, hdiv] at hf ⊢
-        obtain ⟨g, rfl⟩ : ∃ g, f = g + 1 := ⟨f - 1, by omega⟩
-        have hne : ¬ (((p + k + 1 : Nat) : Int) = 0) := by omega
-        simp only [hA, if_false, hne]
-        rw [hB, ← hN, iter_final v now pat typ k g]
-        simp only [List.flatten_cons, List.flatten_nil, List.append_nil, List.length_cons, List.length_nil, true_and]
-        have : n - 1 - p = k := by omega
-        rw [hN, this]
-        simp
-      · -- a middle call
-        have hlt : p + k + 1 < n := by omega
-        have hne : ¬ (((p + k + 1 : Nat) : Int) = 0) := by omega
-        simp only [hA, if_false, hne]
-        have hmiff : Missed n k (p + k) ↔ Missed n k p := by
-          unfold Missed
-          have : n - 1 - p = (n - 1 - (p + k)) + k := by omega
-          rw [this, Nat.add_mod_right]
-          constructor
-          · intro ⟨h1, _⟩; exact ⟨h1, by omega⟩
-          · intro ⟨h1, _⟩; exact ⟨h1, by omega⟩
-        have hdiv : (n - p + k - 1) / k = (n - (p + k) + k - 1) / k + 1 := by
-          have : n - p + k - 1 = (n - (p + k) + k - 1) + k := by omega
-          rw [this, Nat.add_div_right _ hk0]
-        have hf' : (n - (p + k) + k - 1) / k + (if Missed n k (p + k) then 0 else 1) ≤ f := by
-          rw [hdiv] at hf
-          by_cases hm : Missed n k p
-          · simp only [hm, hmiff.2 hm, if_true] at hf ⊢; omega
-          · have hm' : ¬ Missed n k (p + k) := fun h => hm (hmiff.1 h)
-            simp only [hm, hm', if_false] at hf ⊢; omega
-        obtain ⟨h1, h2, h3⟩ := ih (p + k) ((p + k + 1 : Nat) : Int) (Or.inr rfl) (by omega) hf'
-        refine ⟨h1, ?_, ?_⟩
-        · simp only [List.flatten_cons]
-          rw [h2, ← kept_append]
-          congr 1
-          have hL : (if Missed n k p then n - 1 - p else n - p)
-              = k + (if Missed n k (p + k) then n - 1 - (p + k) else n - (p + k)) := by
-            by_cases hm : Missed n k p
-            · simp only [hm, hmiff.2 hm, if_true]; omega
-            · have hm' : ¬ Missed n k (p + k) := fun h => hm (hmiff.1 h)
-              simp only [hm, hm', if_false]; omega
-          rw [hL, List.take_add, List.drop_drop]
-        · simp only [List.length_cons]
-          rw [h3, hdiv]
-          by_cases hm : Missed n k p
-          · simp only [hm, hmiff.2 hm, if_true]
-          · have hm' : ¬ Missed n k (p + k) := fun h => hm (hmiff.1 h)
-            simp only [hm, hm', if_false]
+    · -- a middle call
+      have hne : (((p + k + 1 : Nat) : Int)) ≠ 0 := by omega
+      rw [if_neg hA] at hstep
+      rw [iterateFrom_next _ f () c () _ _ hstep hne]
+      have hdiv : (n - p + k - 1) / k = (n - (p + k) + k - 1) / k + 1 := by
+        have : n - p + k - 1 = (n - (p + k) + k - 1) + k := by omega
+        rw [this, Nat.add_div_right _ hk0]
+      obtain ⟨h1, h2, h3⟩ := ih (p + k) ((p + k + 1 : Nat) : Int) (Or.inr rfl) (by omega) (by omega)
+      refine ⟨h1, ?_, ?_⟩
+      · simp only [List.flatten_cons]
+        rw [h2, ← kept_append]
+        congr 1
+        rw [← List.drop_drop]
+        exact List.take_append_drop k (v.drop p)
+      · simp only [List.length_cons]
+        rw [h3, hdiv]
 
 end
 
